@@ -337,12 +337,12 @@ func TestC04_Corpus(t *testing.T) {
 // field "looks like a group" (text name = message name) and the packed/presence option combinations.
 func TestC04_Shapes(t *testing.T) {
 	ev.RunEnum(t, ev.Spec[wsCase]{ID: "C04", Name: "Shapes",
-		Rule:  "ALL combinations of {message name Grp, MyField, A} x {field name lower-cased, first-letter-lowered, upper-cased, unrelated} x {type declared in the same scope, in the enclosing scope} x {message_encoding DELIMITED at the field, at the file, none} x {singular, repeated} in edition 2023, plus proto2/proto3 files with every packed option value on every packable kind and required/optional/implicit mixes; same oracle as Generated",
+		Rule:  "ALL combinations of {message name Grp, MyField, A} x {field name lower-cased, first-letter-lowered, upper-cased, unrelated} x {type declared in the same scope, in the enclosing scope, nested deeper inside a sibling message, inside another top-level message} x {message_encoding DELIMITED at the field, at the file, none} x {singular, repeated} in edition 2023, plus proto2/proto3 files with every packed option value on every packable kind and required/optional/implicit mixes; same oracle as Generated",
 		Check: c04Check}, true, func(yield func(wsCase) bool) {
 		for _, mn := range []string{"Grp", "MyField", "A"} {
 			lf := strings.ToLower(mn[:1]) + mn[1:]
 			for _, fn := range []string{strings.ToLower(mn), lf, strings.ToUpper(mn) + "_", "unrelated"} {
-				for _, same := range []bool{true, false} {
+				for _, where := range []string{"same", "enclosing", "deeper", "other"} {
 					for _, enc := range []string{"field", "file", "none"} {
 						for _, rep := range []string{"", "repeated "} {
 							var sb strings.Builder
@@ -351,18 +351,27 @@ func TestC04_Shapes(t *testing.T) {
 								sb.WriteString("option features.message_encoding = DELIMITED;\n")
 							}
 							decl := "message " + mn + " { int32 x = 1; }\n"
-							if !same {
+							ref := mn
+							switch where {
+							case "enclosing":
 								sb.WriteString(decl)
+							case "other":
+								sb.WriteString("message Other { " + decl + "}\n")
+								ref = "Other." + mn
 							}
 							sb.WriteString("message Outer {\n")
-							if same {
+							switch where {
+							case "same":
 								sb.WriteString("  " + decl)
+							case "deeper":
+								sb.WriteString("  message Mid { " + decl + "  }\n")
+								ref = "Mid." + mn
 							}
 							opt := ""
 							if enc == "field" {
 								opt = " [features.message_encoding = DELIMITED]"
 							}
-							fmt.Fprintf(&sb, "  %s%s %s = 1%s;\n  map<string, %s> m = 2;\n}\n", rep, mn, fn, opt, mn)
+							fmt.Fprintf(&sb, "  %s%s %s = 1%s;\n  map<string, %s> m = 2;\n}\n", rep, ref, fn, opt, ref)
 							if !yield(wsCase{Files: map[string]string{"f.proto": sb.String()}, Names: []string{"f.proto"}}) {
 								return
 							}
